@@ -1855,6 +1855,36 @@ pub fn c14(tier: &str) -> Vec<Family> {
         scn("clone/send_before_connect", &spec, vec![pe(1, 2, 3), pe(0, 1, 1), pe(1, 2, 4)]),
     ];
     fams.push(Family::new("port_clones", &["delivery_lost", "delivery_invented", "delivery_dup"], sc2).cap(cap));
+    // Queries with many repliers (every third one filtered on parity, every fifth mapped), from
+    // a requestor and from a query source, on the single-threaded executor (default schedule)
+    // and on the real multi-threaded executor: the replies in connection order, complete.
+    let wide = |n: usize| -> Arc<BenchSpec> {
+        let conns: Vec<Conn> = (1..=n)
+            .map(|i| if i % 3 == 0 { tom(i, Mode::Filter((i % 2) as i64)) } else if i % 5 == 0 { tom(i, Mode::Map(i as i64)) } else { to(i) })
+            .collect();
+        let a = NodeSpec::new("A", 2).script(1, vec![query(0, 4), query(0, 4)]).req(conns.clone());
+        let mut nodes = vec![a];
+        for i in 0..n {
+            nodes.push(NodeSpec::new(&format!("r{}", i), 1));
+        }
+        let mut spec = BenchSpec::new(nodes);
+        spec.qsrcs = vec![conns];
+        Arc::new(spec)
+    };
+    let sc_w: Vec<Scenario> = [33usize, 65, 130, 300]
+        .iter()
+        .flat_map(|n| {
+            let sp = wide(*n);
+            vec![
+                scn(format!("wide/requestor/{}", n), &sp, vec![pe(0, 1, 0), pe(0, 1, 1)]),
+                scn(format!("wide/qsource/{}", n), &sp, vec![Cmd::ProcQSrc { src: 0, tag: 4, val: 0 }, Cmd::ProcQSrc { src: 0, tag: 4, val: 1 }]),
+            ]
+        })
+        .collect();
+    let tags_w: &'static [&'static str] = &["replies", "replies_early", "delivery_dup", "delivery_invented", "delivery_lost", "delivery_value", "report_exact", "error_class"];
+    fams.push(Family::new("wide_queries_st", tags_w, sc_w.clone()).uncontrolled(1, 1).hang_violation());
+    fams.push(Family::new("wide_queries_mt2", tags_w, sc_w.clone()).uncontrolled(2, 2).hang_violation());
+    fams.push(Family::new("wide_queries_mt4", tags_w, sc_w).uncontrolled(4, 2).hang_violation());
     fams
 }
 
